@@ -22,6 +22,9 @@ type c11Case struct {
 	Src   string             `json:"src"`   // the rendered expression
 	Store map[string]*string `json:"store"` // nil = unset
 	Path  string             `json:"path"`  // "eval" or "expand" ($((src)) parsed and expanded)
+	// Opts are the options of the environment (the statement knows none: an
+	// unset variable reads as 0 under nounset as well).
+	Opts uint `json:"opts,omitempty"`
 }
 
 var (
@@ -81,6 +84,7 @@ func checkC11(c c11Case) (skip string, err error) {
 	}
 
 	env := c11Env
+	env.Opts = interp.Option(c.Opts)
 	for _, v := range c11Vars {
 		env.Unset(v)
 	}
@@ -328,6 +332,9 @@ func TestC11(t *testing.T) {
 		src := ref.Join(tr.Tokens(nil), func() string { return " " })
 		for si, store := range c11Stores {
 			c := c11Case{Tree: tr, Src: src, Store: store, Path: "eval"}
+			if (idx+si)%3 == 0 {
+				c.Opts = uint(interp.NoUnset)
+			}
 			run(t, c, false)
 			if (idx+si)%8 == 0 {
 				c.Path = "expand"
@@ -435,7 +442,7 @@ func TestC11(t *testing.T) {
 				store[v] = nil
 			}
 		}
-		c := c11Case{Tree: tr, Src: src, Store: store, Path: path}
+		c := c11Case{Tree: tr, Src: src, Store: store, Path: path, Opts: uint(rapid.SampledFrom([]interp.Option{0, 0, interp.NoUnset, interp.NoUnset | interp.AllExport}).Draw(rt, "opts"))}
 		run(rt, c, true)
 		f := tr.Features()
 		st.Class(fmt.Sprintf("sampled_depth_%d", f.Depth))
